@@ -26,7 +26,7 @@ func runC02(c *Ctx) {
 	r.Rule("R2-emitted-signed", "every non-empty cookie value derives from SignedValue", 7)
 	r.Rule("R3-validate-before-decode", "payloads are decoded only from Validate's value for that cookie", 7)
 	r.Rule("R4-encrypt-before-emit", "msgpack output flows only into Encrypt; stored/signed bytes derive from ciphertext", 9)
-	r.Rule("R5-constant-time-full-compare", "checkHmac: hmac.Equal on the complete decoded signatures", 1)
+	r.Rule("R5-constant-time-full-compare", "checkSignature: hmac.Equal on the complete, error-free decodings of the presented and the expected signature", 1)
 	r.Rule("R7-decoder-callers", "payload decoders and ticket literals have closed, reviewed caller sets", 6)
 	r.Rule("R9-fresh-nonce", "every encrypting Cipher hands its AEAD/stream the very slice an error-free crypto/rand read filled as nonce/IV", 2)
 	r.Rule("R8-fresh-ticket", "a new ticket's id and AES key come from successful crypto/rand reads", 1)
@@ -36,8 +36,7 @@ func runC02(c *Ctx) {
 	validate := c.Fn("R1-mac-coverage", "pkg/encryption.Validate")
 	cookieSig := c.Fn("R1-mac-coverage", "pkg/encryption.cookieSignature")
 	checkSig := c.Fn("R1-mac-coverage", "pkg/encryption.checkSignature")
-	checkHmac := c.Fn("R1-mac-coverage", "pkg/encryption.checkHmac")
-	if signed == nil || validate == nil || cookieSig == nil || checkSig == nil || checkHmac == nil {
+	if signed == nil || validate == nil || cookieSig == nil || checkSig == nil {
 		return
 	}
 
@@ -251,37 +250,7 @@ func runC02(c *Ctx) {
 
 	// ---- R5 ---------------------------------------------------------------------------------
 	rule = "R5-constant-time-full-compare"
-	hmacEqual := c.StdFunc(rule, "crypto/hmac.Equal")
-	if hmacEqual != nil {
-		c.Walk(rule, checkHmac, func(p *walk.Path) {
-			rv, ok := p.ReturnDV(0)
-			if !ok {
-				return
-			}
-			if b, k := p.Truth(rv, p.End()); k && !b {
-				return
-			}
-			key := "true-return|" + fnKey(checkHmac)
-			eq, ok := extractOfCall(p, rv, 0)
-			if !ok || eq.C.StaticCallee() != hmacEqual {
-				c.bad(rule, key, p.Exit, "checkHmac's verdict is not hmac.Equal's", p, p.End())
-				return
-			}
-			full := func(arg walk.DV, param ssa.Value) bool {
-				dc, ok := extractOfCall(p, arg, 0)
-				if !ok || dc.C.StaticCallee() == nil || dc.C.StaticCallee().Name() != "DecodeString" || p.Resolve(p.Arg(dc, 1)).V != param {
-					return false
-				}
-				n, k := p.ResultNil(dc.DV(), 1, p.End())
-				return k && n
-			}
-			if full(p.Arg(eq, 0), checkHmac.Params[0]) && full(p.Arg(eq, 1), checkHmac.Params[1]) {
-				c.ok(rule, key, p.Exit, "hmac.Equal(decode(input), decode(expected)) with both decodes error-free")
-			} else {
-				c.bad(rule, key, p.Exit, "the signatures compared are not the complete, error-free decodings of the presented and the expected signature (a prefix, trimmed or raw compare accepts truncated signatures)", p, p.End())
-			}
-		})
-	}
+	checkSigCompare(c, rule)
 
 	// ---- R2 ---------------------------------------------------------------------------------
 	rule = "R2-emitted-signed"
@@ -315,69 +284,60 @@ func runC02(c *Ctx) {
 						continue
 					}
 				}
-				// phi(value parameter when "", SignedValue result) or SignedValue result / encodeCookie result
-				okAll := true
-				for _, o := range c.origins(arg, 0) {
-					switch x := o.(type) {
-					case *ssa.Extract:
-						call, ok := x.Tuple.(*ssa.Call)
-						if !ok || x.Index != 0 {
-							okAll = false
-							continue
-						}
-						sc := call.Call.StaticCallee()
-						if sc == signed {
-							continue
-						}
-						// helper returning SignedValue's result
-						if sc != nil && c.P.InModule(sc) && returnsOnly(sc, 0, func(v ssa.Value) bool {
-							ex, ok := v.(*ssa.Extract)
-							if !ok {
-								k, isK := v.(*ssa.Const)
-								return isK && k.Value != nil && k.Value.ExactString() == `""`
-							}
-							c2, ok := ex.Tuple.(*ssa.Call)
-							return ok && c2.Call.StaticCallee() == signed
-						}) {
-							continue
-						}
-						okAll = false
-					case *ssa.Convert:
-						// string(value) of the wrapper's parameter: only on the path where it equals "" (checked by walker below)
-						if _, ok := x.X.(*ssa.Parameter); !ok {
-							okAll = false
-						}
-					case *ssa.Parameter:
-						// value parameter itself under value == ""
-					case *ssa.Const:
-					default:
-						okAll = false
+				// On every path the value is SignedValue's result (directly or through a helper that returns only that),
+				// the constant "", or a value the path has found equal to "" (the `if value != ""` idiom of the
+				// setters, wherever the unsigned value comes from: a parameter, an encoder call, a local).
+				isSignedResult := func(v ssa.Value) bool {
+					ex, ok := v.(*ssa.Extract)
+					if !ok || ex.Index != 0 {
+						return false
 					}
+					call, ok := ex.Tuple.(*ssa.Call)
+					if !ok {
+						return false
+					}
+					sc := call.Call.StaticCallee()
+					if sc == signed {
+						return true
+					}
+					return sc != nil && c.P.InModule(sc) && returnsOnly(sc, 0, func(v ssa.Value) bool {
+						ex, ok := v.(*ssa.Extract)
+						if !ok {
+							k, isK := v.(*ssa.Const)
+							return isK && k.Value != nil && k.Value.ExactString() == `""`
+						}
+						c2, ok := ex.Tuple.(*ssa.Call)
+						return ok && c2.Call.StaticCallee() == signed
+					})
 				}
-				// path-sensitive: when the unsigned parameter flows in, it is known to be ""
-				if okAll {
+				okAll := true
+				reached := false
+				{
 					cs := cs
 					c.Walk(rule, caller, func(p *walk.Path) {
 						for i, s := range p.Steps {
-							if s.In != cs.(ssa.Instruction) {
+							if s.In != cs.(ssa.Instruction) || s.F != 0 {
 								continue
 							}
+							reached = true
 							v := p.Resolve(p.StepOp(arg, s))
-							unsigned := false
-							switch x := v.V.(type) {
-							case *ssa.Convert:
-								_, unsigned = x.X.(*ssa.Parameter)
-							case *ssa.Parameter:
-								unsigned = true
+							if isSignedResult(v.V) {
+								continue
 							}
-							if unsigned {
-								if !eqConstAtom(p, i, true, "", func(x walk.DV) bool { return p.Same(x, v) }) {
-									okAll = false
+							if k, ok := ConstString(v.V); ok && k == "" {
+								continue
+							}
+							if !eqConstAtom(p, i, true, "", func(x walk.DV) bool { return p.Same(x, v) }) {
+								if okAll {
 									c.bad(rule, key, s.In, "an unsigned value can reach the cookie on a path where it is not known to be empty", p, i)
 								}
+								okAll = false
 							}
 						}
 					})
+				}
+				if !reached {
+					okAll = false
 				}
 				if okAll {
 					c.ok(rule, key, cs, "value is SignedValue's result (or empty for deletion)")
